@@ -790,7 +790,7 @@ pub fn property(tier: Tier) -> Property {
             panic_is_violation: true,
             render: |c: &Mixed| c.render(),
             rule: "histories of add_syn_expr and union_justified with distinct justifications (recipes: permuted copies incl. 3- and 4-cycles, renamed copies = redundancy, contexts = self-reference, binders) and rewrite iterations with rules without substitution right sides; every pair of inserted terms the e-graph reports equal is explained and the proof DAG is re-checked node by node on terms; non-trivial = the proofs contain a congruence step and an explicit leaf; distinct by rendered history",
-            case_timeout_s: tier.pick(180, 900),
+            case_timeout_s: tier.pick(30, 120),
             exhaustive: false,
         }));
     }
